@@ -166,10 +166,14 @@ Fixpoint key_snapshot (name : string) (idx : nat) (items : list (node * node)) :
                    else key_snapshot name (S idx) r
   end.
 
-(* data.insert(idx, repl_node, data.pop(key)) for every snapshot entry *)
+(* data.insert(idx, repl_node, data.pop(key)) for every snapshot entry.  The arguments are
+   evaluated first (the pop, KeyError); the insertion then hashes the new key: a Hash / Array /
+   Set as replacement node is unhashable -- TypeError (finding F-C10-3: an anchored hash KEY
+   meeting an anchored CONTAINER of the same name under left / right) *)
 Definition rekey (repl : node) (items : list (node * node)) (e : nat * node) : outcome (list (node * node)) :=
   match an_od_pop (key_val (snd e)) items with
-  | Some (v, rest) => Ok (an_od_insert (fst e) repl v rest)
+  | Some (v, rest) => if is_leaf repl then Ok (an_od_insert (fst e) repl v rest)
+                      else Raise (PyCrash TypeError)
   | None => Raise (PyCrash KeyError)
   end.
 
